@@ -199,13 +199,14 @@ func (d *SFDecoder) getSampleInfo() (uint32, uint32, error) {
 	sfTypeFormat = sfType & 0xfff   // 12 bytes format
 
 	// supports standard sflow data
-	if sfTypeEnterprise != 0 {
-		d.reader.Seek(int64(sfDataLength), 1)
-		return 0, 0, errNoneEnterpriseStandard
-	}
-
 	if err = read(d.reader, &sfDataLength); err != nil {
 		return 0, 0, errDataLengthUnknown
+	}
+
+	if sfTypeEnterprise != 0 {
+		// enterprise-specific sample: report the whole data format so that
+		// the caller skips it by its length like any other unknown type
+		return sfType, sfDataLength, nil
 	}
 
 	return sfTypeFormat, sfDataLength, nil
